@@ -397,6 +397,82 @@ class Agg:
             c["reproduced"] = c["replay"].get("reproduced", False)
             self.candidates.append(c)
 
+    def evaluate_rule_passes_arguments(self):
+        """C17 / C12 / C07: validate's per-rules-file step hands evaluate_against_data_input exactly what it was given - the data type, the
+        output format, the merged input parameters, the data files, the flags, the summary selection and the writer - whatever the
+        data files look like (no per-run decision to drop the parameters)"""
+        def m_parse(ex, argv):
+            inner = ex.fresh_enum("Option", 2, "parsed", {"Some": ex.opq()})
+            return ex.fresh_result(inner, "parse")
+        ex = self.exec(r"(?:commands::validate::)?evaluate_rule",
+                       {"parse_rules": m_parse, "evaluate_against_data_input": mirexec.m_result_status,
+                        "write_err": mirexec.m_result_unit}, log=("*",))
+        self.fns.append("commands::validate::evaluate_rule (arguments passed on)")
+        from mirflow import same
+        names = {0: "_1", 1: "_2", 2: "_3", 3: "_4", 6: "_6", 7: "_7", 8: "_8", 9: "_9"}
+        bad, n = [], 0
+        for p in ex.paths:
+            evs = calls(p, "evaluate_against_data_input")
+            ok = True
+            for e in evs:
+                n += 1
+                ok = ok and len(e[2]) == 10 and all(same(e[2][i], ex.arg_env[v]) for i, v in names.items())
+            # nothing else is consulted about the data files / parameters on the way (is_map, iter, all ...)
+            other = [e[1] for e in p.events if e[0] == "call" and e[1] not in ("evaluate_against_data_input", "parse_rules", "write_err", "underline", "format",
+                                                                                   "branch", "from_residual", "eq", "deref", "as_str", "new_display", "new_v1", "new_const", "new_debug", "must_use", "from_output")]
+            if evs and any(o in ("is_map", "is_list", "is_scalar", "all", "any", "iter", "is_some", "is_none", "is_empty", "len", "first") for o in other):
+                ok = False
+            bad.append("false" if ok else pc_term(p.pc))
+        c = self.discharge("evaluate_rule/arguments-passed-on", ex, bad,
+                           f"validate, per rules file ({n} evaluations over all paths): evaluate_against_data_input receives evaluate_rule's own data type, "
+                           "output format, input parameters, data files, verbose / print-json flags, summary selection and writer, unchanged; no look at the "
+                           "data files or the parameters decides what is passed")
+        if c:
+            c["replay"] = self.replay_params_mixed_roots()
+            c["reproduced"] = c["replay"].get("reproduced", False)
+            self.candidates.append(c)
+
+    def replay_params_mixed_roots(self, cand=None):
+        """validate (console output) with -i over data files of which one has a list root: what is reported for a map document is what it gets
+        alone with the same -i; a parameter / data key conflict stays an error"""
+        import re as _re
+        exe = self.cli()
+        if not exe:
+            return {"reproduced": False, "note": "native build failed"}
+        d = tempfile.mkdtemp(prefix="cfnverif_replay_")
+        out = []
+        try:
+            w = lambda n_, t: open(os.path.join(d, n_), "w").write(t)
+            w("r.guard", "rule r {\n  extra == 1\n}\n")
+            w("p.json", '{"extra": 1}\n')
+            w("a.json", '{"x": 1}\n')
+            w("b.json", '[1, 2]\n')
+            w("c.json", '{"extra": 5}\n')
+            w("s.json", '"just a string"\n')
+
+            def run(files):
+                cmd = [exe, "validate", "-r", os.path.join(d, "r.guard"), "-i", os.path.join(d, "p.json"), "--show-summary", "all"]
+                for f in files:
+                    cmd += ["-d", os.path.join(d, f)]
+                pr = subprocess.run(cmd, capture_output=True, text=True, timeout=60)
+                st = dict(_re.findall(r"(\w+\.json) Status = (\w+)", pr.stdout))
+                return pr.returncode, st
+            rc_a, st_a = run(["a.json"])
+            rc_c, st_c = run(["c.json"])
+            for other in ("b.json", "s.json"):
+                for order in ([ "a.json", other], [other, "a.json"]):
+                    rc, st = run(order)
+                    if "a.json" in st and st["a.json"] != st_a.get("a.json"):
+                        out.append({"data_files": order, "a.json alone with -i": st_a.get("a.json"), "a.json in this run": st["a.json"], "exit": rc})
+                    elif "a.json" not in st and rc in (0, 19):
+                        out.append({"data_files": order, "problem": "no status for a.json although the run ended with a verdict exit code", "exit": rc})
+                rc, st = run(["c.json", other])
+                if rc_c not in (0, 19) and rc in (0, 19):
+                    out.append({"data_files": ["c.json", other], "problem": f"key conflict between -i and c.json is an error alone (exit {rc_c}) but not in this run", "exit": rc})
+            return {"reproduced": bool(out), "mismatches": out[:4], "alone": {"a.json": [rc_a, st_a], "c.json": [rc_c, st_c]}}
+        finally:
+            shutil.rmtree(d, ignore_errors=True)
+
     def replay_empty_data_collection(self, cand=None):
         """a rules file that does not parse gives exit 5 also when there is no data file to evaluate (a directory without files of a
         supported extension, a payload with `data: []`); a good rules file gives 0 there"""
@@ -860,8 +936,9 @@ SITES = {
     "C09": ["eval_rules_file"],
     "C04": ["eval_rules_file", "memo_sites"],
     "C06": ["evaluate_against_data_input", "evaluate_rule"],
-    "C12": ["evaluate_against_data_input", "evaluate_rule"],        # `the run reports failure iff some pair does`
-    "C07": ["evaluate_against_data_input", "evaluate_rule"],
+    "C12": ["evaluate_against_data_input", "evaluate_rule", "evaluate_rule_passes_arguments"],        # `the run reports failure iff some pair does`
+    "C07": ["evaluate_against_data_input", "evaluate_rule", "evaluate_rule_passes_arguments"],
+    "C17": ["evaluate_rule_passes_arguments"],
     "C01": ["eval_rule", "eval_when_condition_block"],
     "C08": ["index_sites"],
     "C03": ["gac_negation"],
